@@ -37,7 +37,9 @@ enum Cls {
     CheckedPanic,
     /// explicit clamp of a derived summary value
     Clamp,
-    /// narrow integer arithmetic: wraps in release, panics in debug
+    /// narrow integer arithmetic: wraps in release, panics in debug (none left in the table
+    /// after the repairs; kept so that a new one can be classified)
+    #[allow(dead_code)]
     Arith,
     /// widening or otherwise value-preserving; cannot lose information
     Harmless,
@@ -49,6 +51,10 @@ const SITES: &[(&str, &str, &str, Cls, usize)] = &[
     ("fontbe/src/glyphs.rs", "letwidth:u16=glyph.width.ot_round();", "glyphs.rs:can_reuse_metrics.width", Cls::Saturate, 1),
     ("fontbe/src/glyphs.rs", "letcomponent_width:u16=component_glyph.width.ot_round();", "glyphs.rs:can_reuse_metrics.component_width", Cls::Saturate, 1),
     ("fontbe/src/glyphs.rs", "coeffs[4]=coeffs[4].ot_round();", "glyphs.rs:can_reuse_metrics.dx(f64)", Cls::Harmless, 1),
+    ("fontbe/src/glyphs.rs", "constMAX_POINTS:usize=u16::MAXasusize;", "glyphs.rs:check_num_points.limit(widening)", Cls::Harmless, 1),
+    ("fontbe/src/glyphs.rs", "letrounded:f64=value.ot_round();", "glyphs.rs:check_fits_i16(coordinates, deltas, offsets)", Cls::Checked, 1),
+    ("fontbe/src/glyphs.rs", "let(x,y)=(point.xasi32,point.yasi32);", "glyphs.rs:check_point_deltas_fit_i16(i32)", Cls::Harmless, 1),
+    // guarded by check_fits_i16 in create_composite: cannot saturate any more
     ("fontbe/src/glyphs.rs", "x:e.ot_round(),", "glyphs.rs:component.offset.x", Cls::Saturate, 1),
     ("fontbe/src/glyphs.rs", "y:f.ot_round(),", "glyphs.rs:component.offset.y", Cls::Saturate, 1),
     ("fontbe/src/glyphs.rs", "xx:F2Dot14::from_f64(a),", "glyphs.rs:component.transform.xx", Cls::Saturate, 1),
@@ -74,7 +80,8 @@ const SITES: &[(&str, &str, &str, Cls, usize)] = &[
     ("fontbe/src/metrics_and_limits.rs", "u16::try_from(points),", "metrics_and_limits.rs:maxp.composite.points", Cls::Checked, 1),
     ("fontbe/src/metrics_and_limits.rs", "u16::try_from(contours),", "metrics_and_limits.rs:maxp.composite.contours", Cls::Checked, 1),
     ("fontbe/src/metrics_and_limits.rs", "u16::try_from(depth),", "metrics_and_limits.rs:maxp.composite.depth", Cls::Checked, 1),
-    ("fontbe/src/metrics_and_limits.rs", ".ot_round();", "metrics_and_limits.rs:hmtx.advance", Cls::Saturate, 1),
+    ("fontbe/src/metrics_and_limits.rs", "letrounded:f64=width.ot_round();", "metrics_and_limits.rs:hmtx.advance", Cls::Checked, 1),
+    ("fontbe/src/metrics_and_limits.rs", "Ok(roundedasu16)", "metrics_and_limits.rs:hmtx.advance.cast(guarded)", Cls::Checked, 1),
     ("fontbe/src/metrics_and_limits.rs", ".map(|bbox|bbox.x_maxasi32-bbox.x_minasi32);", "metrics_and_limits.rs:bounds_advance(i32)", Cls::Harmless, 1),
     ("fontbe/src/metrics_and_limits.rs", "ascender:FWord::new(default_metrics.hhea_ascender.into_inner().ot_round()),", "metrics_and_limits.rs:hhea.ascender", Cls::Saturate, 1),
     ("fontbe/src/metrics_and_limits.rs", "descender:FWord::new(default_metrics.hhea_descender.into_inner().ot_round()),", "metrics_and_limits.rs:hhea.descender", Cls::Saturate, 1),
@@ -107,7 +114,7 @@ const SITES: &[(&str, &str, &str, Cls, usize)] = &[
     ("fontir/src/glyph.rs", "letstroke=OtRound::<u16>::ot_round(upm*0.05)asf64;", "glyph.rs:notdef.outline.stroke(<=3277)", Cls::Harmless, 1),
     // ---- fontdrasil/src/types.rs
     ("fontdrasil/src/types.rs", "fntry_from(value:u16)->Result<Self,Self::Error>{", "types.rs:WidthClass.try_from", Cls::Checked, 1),
-    ("fontdrasil/src/types.rs", ".get((value-1)asusize)", "types.rs:WidthClass.try_from.index", Cls::Arith, 1),
+    ("fontdrasil/src/types.rs", ".and_then(|idx|WidthClass::all_values().get(idxasusize))", "types.rs:WidthClass.try_from.index(after checked_sub)", Cls::Harmless, 1),
     ("fontdrasil/src/types.rs", "Self::_PERCENT_LUT[*selfasusize]", "types.rs:WidthClass.to_percent(enum)", Cls::Harmless, 1),
     // ---- fontbe/src/vertical_metrics.rs (not anchored; named in the brief)
     ("fontbe/src/vertical_metrics.rs", "ascender:FWord::new(default_metrics.vhea_ascender.into_inner().ot_round()),", "vertical_metrics.rs:vhea.ascender", Cls::Saturate, 1),
@@ -118,13 +125,14 @@ const SITES: &[(&str, &str, &str, Cls, usize)] = &[
     ("fontbe/src/vertical_metrics.rs", "caret_offset:default_metrics.vhea_caret_offset.into_inner().ot_round(),", "vertical_metrics.rs:vhea.caret_offset", Cls::Saturate, 1),
     ("fontbe/src/vertical_metrics.rs", "number_of_long_ver_metrics:metrics.long_metrics.len().try_into().map_err(|_|{", "vertical_metrics.rs:vhea.number_of_long_ver_metrics", Cls::Checked, 1),
     ("fontbe/src/vertical_metrics.rs", ".map(|bbox|bbox.y_maxasi32-bbox.y_minasi32);", "vertical_metrics.rs:bounds_advance(i32)", Cls::Harmless, 1),
+    ("fontbe/src/vertical_metrics.rs", "letside_bearing=vertical_originasi32-y_maxasi32;", "vertical_metrics.rs:top_side_bearing(i32)", Cls::Harmless, 1),
+    ("fontbe/src/vertical_metrics.rs", "side_bearing.try_into().map_err(|_|Error::OutOfBounds{", "vertical_metrics.rs:top_side_bearing", Cls::Checked, 1),
 ];
 
 /// Narrow-integer arithmetic cannot be found by a grep for cast idioms; these lines are
 /// checked for presence so that the table notices when they change.
 const ARITH_SITES: &[(&str, &str, &str)] = &[
-    ("fontbe/src/vertical_metrics.rs", "letside_bearing=vertical_origin", "vertical_metrics.rs:top_side_bearing(i16 sub)"),
-    ("fontbe/src/vertical_metrics.rs", "-glyph.data.bbox().map(|bbox|bbox.y_max).unwrap_or_default();", "vertical_metrics.rs:top_side_bearing(i16 sub)"),
+    // none left in the scanned files: the top side bearing is now computed in i32 and checked
 ];
 
 const SCANNED: &[&str] = &[
@@ -426,7 +434,8 @@ fn gen_cases(seed: u64, n: usize, tier: &str) -> Vec<Case> {
         }
     }
     // nested scales multiplied by --flatten-components
-    for (s1, s2) in [(1.25, 1.5), (1.25, 1.6), (1.5, 1.5), (2.0, 1.0), (2.0, 1.25), (2.0, 2.0), (-1.5, 1.5), (-1.25, 1.6), (1.0, 1.0), (0.5, 2.0), (-2.0, -2.0)] {
+    // (binary fractions only: the model multiplies exactly, f64 rounds e.g. 1.25 * 1.6 to 2.0)
+    for (s1, s2) in [(1.25, 1.5), (1.0, 2.0), (1.5, 1.5), (2.0, 1.0), (2.0, 1.25), (2.0, 2.0), (-1.5, 1.5), (-1.0, 2.0), (1.0, 1.0), (0.5, 2.0), (-2.0, -2.0)] {
         push("flatscale", s1, s2, 0, "boundary", &mut v);
     }
     // composite bounding box: offsets fit, the composed extreme does not
@@ -1723,7 +1732,8 @@ fn coq_case(c: &Case, dbg: &Obs, rel: &Obs) -> Option<String> {
             let (s1, s2) = (c.a, c.b);
             let inner = format!("[(1, {}); (1, {})]", coq_aff(&[s2, 0.0, 0.0, s2, 0.0, 0.0]), coq_aff(&[1.0, 0.0, 0.0, 1.0, 300.0, 0.0]));
             let nested = format!("[NNode {} {}; NLeaf 1 {}]", coq_aff(&[s1, 0.0, 0.0, s1, 0.0, 0.0]), inner, coq_aff(&[1.0, 0.0, 0.0, 1.0, 0.0, 300.0]));
-            both(&|p| format!("(omap dump_glyf (build_flattened {} [notdef_src; SrcSimple 600 1000 [unit100]] {}))", p, nested))
+            // flatten_glyph repeats the 2x2 range test after flattening (/repo 101951c)
+            both(&|p| format!("(omap dump_glyf (build_flattened_repaired {} [notdef_src; SrcSimple 600 1000 [unit100]] {}))", p, nested))
         }
         "hvar" => {
             let (m0, m1) = (otr(c.a), otr(c.a + c.b));
